@@ -234,18 +234,34 @@ def check_buffer_pools(ctx, prog, prefix="C15.U4"):
                "pool accessed from %s" % sorted(users - allowed), "")
         tf = prog.fn("minijinja::compiler::codegen::" + take)
         clears = [c for c in tf.calls() if c.name == "alloc::vec::Vec::clear"]
-        ok = bool(clears) and cfg.paths_must_pass(tf, 0, [c.bb for c in clears], tf.returns())
-        # the cleared vec is the one returned
-        same = False
-        for c in clears:
-            tgt = set()
+        # every value the helper returns is empty: a vector it has just built (`Vec::new` / `with_capacity`), or one that
+        # `clear()` was called on - before it was moved into the return place or afterwards - on every path
+        fresh = lambda nm: nm.startswith("alloc::vec::Vec") and nm.split("::")[-1] in ("new", "with_capacity", "default")
+
+        def cleared_locals(c):
+            tgt = {op_place(c.args[0])["l"]} if op_place(c.args[0]) and "p" not in op_place(c.args[0]) else set()
             for d in flow.whole_defs(tf, op_place(c.args[0])["l"]):
                 if d.kind == "stmt" and d.rv["k"] == "ref":
                     tgt.add(d.rv["place"]["l"])
-            for bb, i, s in tf.all_stmts():
-                if s["k"] == "assign" and s["place"] == {"l": 0} and s["rv"]["k"] == "use" and op_place(s["rv"]["op"]) and \
-                        op_place(s["rv"]["op"])["l"] in tgt:
-                    same = True
+            return tgt
+        defs0 = []       # (block, source local or None, is_fresh)
+        for bb, i, st in tf.all_stmts():
+            if st["k"] == "assign" and st["place"] == {"l": 0}:
+                src = op_place(st["rv"]["op"]) if st["rv"]["k"] == "use" else None
+                fr = bool(src) and all(o.kind == "call" and fresh(o.call.name) for o in flow.origins(tf, st["rv"]["op"])) if src else False
+                defs0.append((bb, src["l"] if src else None, fr))
+        for c in tf.calls():
+            if c.dest == {"l": 0}:
+                defs0.append((c.target if c.target is not None else c.bb, None, fresh(c.name)))
+        ok = bool(defs0)
+        same = bool(defs0)
+        for bb, src, fr in defs0:
+            if fr:
+                continue
+            before = [c.bb for c in clears if src is not None and src in cleared_locals(c)]
+            after = [c.bb for c in clears if 0 in cleared_locals(c)]
+            good = (before and cfg.paths_must_pass(tf, 0, before, [bb])) or (after and cfg.paths_must_pass(tf, bb, after, tf.returns()))
+            ok = ok and bool(good)
         ctx.ob(prefix + ".taken-buffer-is-cleared", tf.path, ok and same,
                "a pooled buffer can be handed out without clear(): instructions state from a previous compilation "
                "leaks into the next", tf.loc)
